@@ -95,6 +95,8 @@ NewInst(n) ==
    cur |-> n.orig.t, tgt |-> n.orig.t, prevEndT |-> n.orig.t, const |-> TRUE,
    totIn |-> 0, totOut |-> 0, lastTau |-> <<0, 0>>, warm |-> FALSE, flushed |-> FALSE,
    best |-> <<0, 0>>,          \* largest |output| so far: <<global output index, size>> (impulse runs)
+   minInMax |-> n.post.in_max,   \* smallest input_frames_max / output_frames_max ever advertised: a buffer
+   minOutMax |-> n.post.out_max, \* allocated at that moment must do for the whole life of the instance
    supplied |-> 0,             \* frames of real signal consumed
    padded |-> 0,               \* frames of zero padding consumed after them (partial / flush calls)
    g |-> n.post,
@@ -145,6 +147,8 @@ AfterReset(I, ev) ==
           !.best = <<0, 0>>, !.supplied = 0, !.padded = 0]
 
 AfterOther(I, ev) == [I EXCEPT !.pre = Snap(I), !.g = ev.post]
+\* every binding also records the smallest maxima advertised so far
+WithMin(J, ev) == [J EXCEPT !.minInMax = Min(@, ev.post.in_max), !.minOutMax = Min(@, ev.post.out_max)]
 \* a "bad" call whose shape turns out to be acceptable (e.g. output short by 1 when 0 frames are
 \* due) is an ordinary processing call
 AfterBad(I, ev) == IF ev.res = "ok" THEN AfterProcess(I, ev) ELSE AfterOther(I, ev)
@@ -163,6 +167,12 @@ C04_Bounds(I, ev) ==
   /\ ev.post.in_next <= ev.post.in_max
   /\ ev.post.out_next <= ev.post.out_max
   /\ ev.post.in_next >= 0 /\ ev.post.out_next >= 0
+
+\* "buffers obtained from input_buffer_allocate / output_buffer_allocate are sufficient for the whole
+\* life of the resampler": what is needed now never exceeds ANY maximum advertised earlier
+C04_LifeBounds(I, ev) ==
+  /\ ev.post.in_next <= I.minInMax
+  /\ ev.post.out_next <= I.minOutMax
 
 C04_Consumed(I, ev) == ProcOk(ev) => ev.nin = ev.pre.in_next
 
@@ -297,6 +307,12 @@ C16_Flush(I, ev) ==
            I.totOut * FftA(I) >= I.supplied * FftB(I)
     ELSE (I.orig.p > 0 /\ I.padded >= I.L + 4 + CeilDiv(I.orig.q, I.orig.p) + ev.pre.in_max) =>
            I.totOut * I.orig.q + I.orig.p + I.orig.q >= I.supplied * I.orig.p
+
+\* the object-safe VecResampler wrapper forwards every getter unchanged
+C16_VecForward(I, ev) ==
+  (ev.ev = "getters" /\ "gv" \in DOMAIN ev) =>
+    /\ ev.gv = ev.post
+    /\ ev.vec_alloc = <<I.ch, ev.post.in_max, I.ch, ev.post.out_max>>
 
 (***************************************************************************)
 (* C09  real-time safety                                                   *)
